@@ -8,8 +8,10 @@ package main
 
 import (
 	"context"
+	"errors"
 	"fmt"
 	"os"
+	"strconv"
 	"sync"
 	"time"
 
@@ -179,6 +181,374 @@ func runV2(c wcase) wobs {
 	return o
 }
 
+// ---------- routing: records to DLQ, acks to source ----------
+
+type rcase struct {
+	Engine  string     `json:"engine"` // r1 | r2
+	Size    int        `json:"size"`
+	Thr     int        `json:"thr"`
+	Recs    [][2]bool  `json:"recs,omitempty"`    // r1: (rejected, dlq write fails) in source order
+	Batches [][][2]bool `json:"batches,omitempty"` // r2: the same, cut into source batches
+	Order   []int      `json:"order,omitempty"`   // r1: order in which Ack()/Nack() are called
+}
+
+type revent struct {
+	Kind string `json:"k"` // dlq | ack
+	Idx  int    `json:"i"`
+}
+
+type robs struct {
+	Events  []revent `json:"events"`
+	Stopped bool     `json:"stopped"`
+	Fatal   bool     `json:"fatal"`
+	Aux     string   `json:"aux,omitempty"`
+}
+
+type evlog struct {
+	mu sync.Mutex
+	ev []revent
+}
+
+func (l *evlog) add(k string, i int) {
+	l.mu.Lock()
+	l.ev = append(l.ev, revent{k, i})
+	l.mu.Unlock()
+}
+
+func posIdx(p opencdc.Position) int {
+	// positions are "pNNNN"; v1 DLQ records carry the message id "<source>/pNNNN"
+	str := string(p)
+	if len(str) < 4 {
+		return -1
+	}
+	n, err := strconv.Atoi(str[len(str)-4:])
+	if err != nil {
+		return -1
+	}
+	return n
+}
+
+// --- v1 fakes
+type r1Source struct{ log *evlog }
+
+func (s *r1Source) ID() string                                         { return "src" }
+func (s *r1Source) Open(context.Context) error                         { return nil }
+func (s *r1Source) Read(context.Context) ([]opencdc.Record, error)     { return nil, nil }
+func (s *r1Source) Stop(context.Context) (opencdc.Position, error)     { return nil, nil }
+func (s *r1Source) Teardown(context.Context) error                     { return nil }
+func (s *r1Source) Errors() <-chan error                               { return nil }
+func (s *r1Source) Ack(_ context.Context, ps []opencdc.Position) error {
+	for _, p := range ps {
+		s.log.add("ack", posIdx(p))
+	}
+	return nil
+}
+
+type r1Handler struct {
+	log  *evlog
+	fail map[int]bool
+}
+
+func (h *r1Handler) Open(context.Context) error  { return nil }
+func (h *r1Handler) Close(context.Context) error { return nil }
+func (h *r1Handler) Write(_ context.Context, r opencdc.Record) error {
+	i := posIdx(r.Position)
+	if h.fail[i] {
+		return cerrors.New("dlq write failed")
+	}
+	h.log.add("dlq", i)
+	return nil
+}
+
+func runR1(c rcase) robs {
+	ctx, cancel := context.WithTimeout(context.Background(), 30*time.Second)
+	defer cancel()
+	lg := &evlog{}
+	h := &r1Handler{log: lg, fail: map[int]bool{}}
+	for i, r := range c.Recs {
+		if r[1] {
+			h.fail[i] = true
+		}
+	}
+	dlq := &stream.DLQHandlerNode{
+		Name: "dlq", Handler: h, WindowSize: c.Size, WindowNackThreshold: c.Thr,
+		Timer: noop.Timer{}, Histogram: metrics.NewRecordBytesHistogram(noop.Histogram{}),
+	}
+	dlq.SetLogger(log.Nop())
+	acker := &stream.SourceAckerNode{Name: "acker", Source: &r1Source{log: lg}, DLQHandlerNode: dlq}
+	acker.SetLogger(log.Nop())
+	dlq.Add(1) // the acker node depends on the DLQ node, as lifecycle.buildNodes registers it
+	in := make(chan *stream.Message)
+	acker.Sub(in)
+	out := acker.Pub()
+	dlqDone := make(chan error, 1)
+	ackerDone := make(chan error, 1)
+	go func() { dlqDone <- dlq.Run(ctx) }()
+	go func() { ackerDone <- acker.Run(ctx) }()
+
+	msgs := make([]*stream.Message, len(c.Recs))
+	for i := range c.Recs {
+		m := &stream.Message{Ctx: ctx, Record: rec(i)}
+		select {
+		case in <- m:
+		case <-ctx.Done():
+			return robs{Aux: "timeout feeding"}
+		}
+		select {
+		case msgs[i] = <-out:
+		case <-ctx.Done():
+			return robs{Aux: "timeout receiving"}
+		}
+	}
+	// call Ack()/Nack() in the generated order, each from its own goroutine (a handler
+	// blocks until all earlier tickets were released)
+	errs := make([]error, len(msgs))
+	var wg sync.WaitGroup
+	order := c.Order
+	if len(order) != len(msgs) {
+		order = make([]int, len(msgs))
+		for i := range order {
+			order[i] = i
+		}
+	}
+	for _, i := range order {
+		if i < 0 || i >= len(msgs) {
+			continue
+		}
+		wg.Add(1)
+		started := make(chan struct{})
+		go func(i int) {
+			defer wg.Done()
+			close(started)
+			if c.Recs[i][0] {
+				errs[i] = msgs[i].Nack(cerrors.New("rejected"), "dest")
+			} else {
+				errs[i] = msgs[i].Ack()
+			}
+		}(i)
+		<-started
+		time.Sleep(50 * time.Microsecond)
+	}
+	wg.Wait()
+	close(in)
+	var o robs
+	select {
+	case <-ackerDone:
+	case <-ctx.Done():
+		o.Aux += "acker did not stop;"
+	}
+	select {
+	case <-dlqDone:
+	case <-ctx.Done():
+		o.Aux += "dlq node did not stop;"
+	}
+	for _, e := range errs {
+		if e != nil {
+			o.Stopped = true
+			o.Fatal = cerrors.IsFatalError(e)
+			break
+		}
+	}
+	o.Events = lg.ev
+	return o
+}
+
+// --- v2 fakes
+var errScriptDone = errors.New("script done")
+
+type r2Source struct {
+	log     *evlog
+	batches [][]opencdc.Record
+	next    int
+}
+
+func (s *r2Source) ID() string                     { return "src" }
+func (s *r2Source) Open(context.Context) error     { return nil }
+func (s *r2Source) Teardown(context.Context) error { return nil }
+func (s *r2Source) Errors() <-chan error           { return nil }
+func (s *r2Source) Read(context.Context) ([]opencdc.Record, error) {
+	if s.next >= len(s.batches) {
+		return nil, errScriptDone
+	}
+	b := s.batches[s.next]
+	s.next++
+	return b, nil
+}
+func (s *r2Source) Ack(_ context.Context, ps []opencdc.Position) error {
+	for _, p := range ps {
+		s.log.add("ack", posIdx(p))
+	}
+	return nil
+}
+
+// r2Dest is used both as the destination (rejects per script) and as the DLQ
+// destination (its acks carry an error for records whose DLQ write "fails").
+type r2Dest struct {
+	id      string
+	log     *evlog
+	bad     map[int]bool
+	isDLQ   bool
+	pending []opencdc.Record
+}
+
+func (d *r2Dest) ID() string                     { return d.id }
+func (d *r2Dest) Open(context.Context) error     { return nil }
+func (d *r2Dest) Teardown(context.Context) error { return nil }
+func (d *r2Dest) Errors() <-chan error           { return nil }
+func (d *r2Dest) Write(_ context.Context, rs []opencdc.Record) error {
+	d.pending = append(d.pending, rs...)
+	return nil
+}
+func (d *r2Dest) Ack(context.Context) ([]connector.DestinationAck, error) {
+	out := make([]connector.DestinationAck, len(d.pending))
+	for i, r := range d.pending {
+		idx := posIdx(r.Position)
+		out[i] = connector.DestinationAck{Position: r.Position}
+		if d.bad[idx] {
+			out[i].Error = cerrors.New("rejected")
+		} else if d.isDLQ {
+			d.log.add("dlq", idx)
+		}
+	}
+	d.pending = nil
+	return out, nil
+}
+
+func runR2(c rcase) robs {
+	ctx, cancel := context.WithTimeout(context.Background(), 30*time.Second)
+	defer cancel()
+	lg := &evlog{}
+	src := &r2Source{log: lg}
+	dest := &r2Dest{id: "dest", log: lg, bad: map[int]bool{}}
+	dlqd := &r2Dest{id: "dlq", log: lg, bad: map[int]bool{}, isDLQ: true}
+	k := 0
+	for _, b := range c.Batches {
+		var rs []opencdc.Record
+		for _, r := range b {
+			rs = append(rs, rec(k))
+			if r[0] {
+				dest.bad[k] = true
+			}
+			if r[1] {
+				dlqd.bad[k] = true
+			}
+			k++
+		}
+		if len(rs) > 0 {
+			src.batches = append(src.batches, rs)
+		}
+	}
+	lgr := log.Nop()
+	dlq := funnel.NewDLQ("dlq", dlqd, lgr, funnel.NoOpConnectorMetrics{}, c.Size, c.Thr)
+	destNode := &funnel.TaskNode{Task: funnel.NewDestinationTask("dest", dest, lgr, funnel.NoOpConnectorMetrics{})}
+	srcNode := &funnel.TaskNode{Task: funnel.NewSourceTask("src", src, lgr, funnel.NoOpConnectorMetrics{}), Next: []*funnel.TaskNode{destNode}}
+	w, err := funnel.NewWorker(srcNode, dlq, lgr, noop.Timer{})
+	if err != nil {
+		return robs{Aux: "NewWorker: " + err.Error()}
+	}
+	done := make(chan error, 1)
+	go func() { done <- w.Do(ctx) }()
+	var o robs
+	select {
+	case err = <-done:
+	case <-ctx.Done():
+		return robs{Aux: "worker hung"}
+	}
+	if !errors.Is(err, errScriptDone) {
+		o.Stopped = true
+		o.Fatal = cerrors.IsFatalError(err)
+		if err == nil {
+			o.Aux = "Do returned nil"
+		}
+	}
+	o.Events = lg.ev
+	return o
+}
+
+func coqRecs(rs [][2]bool) string {
+	items := make([]string, len(rs))
+	for i, r := range rs {
+		items[i] = hx.Pair(hx.Bool(r[0]), hx.Bool(r[1]))
+	}
+	return hx.List(items)
+}
+
+func coqEvents(es []revent) string {
+	items := make([]string, len(es))
+	for i, e := range es {
+		if e.Kind == "dlq" {
+			items[i] = fmt.Sprintf("DlqOk %d", e.Idx)
+		} else {
+			items[i] = fmt.Sprintf("SrcAck %d", e.Idx)
+		}
+	}
+	return hx.List(items)
+}
+
+func emitR(w *hx.Writer, c rcase) {
+	var o robs
+	var term string
+	if c.Engine == "r1" {
+		o = runR1(c)
+		term = fmt.Sprintf("R1 %d %d %s %s %s %s", c.Size, c.Thr, coqRecs(c.Recs), coqEvents(o.Events), hx.Bool(o.Stopped), hx.Bool(o.Fatal))
+	} else {
+		o = runR2(c)
+		bs := make([]string, 0, len(c.Batches))
+		for _, b := range c.Batches {
+			if len(b) > 0 {
+				bs = append(bs, coqRecs(b))
+			}
+		}
+		term = fmt.Sprintf("R2 %d %d %s %s %s %s", c.Size, c.Thr, hx.List(bs), coqEvents(o.Events), hx.Bool(o.Stopped), hx.Bool(o.Fatal))
+	}
+	w.Add(map[string]any{"input": c, "observed": o}, term)
+}
+
+func genRecs(r *hx.Rand, maxLen int) [][2]bool {
+	n := r.Range(1, maxLen)
+	den := []int{2, 3, 5, 8}[r.Intn(4)]
+	failDen := []int{0, 0, 4, 10}[r.Intn(4)]
+	rs := make([][2]bool, n)
+	for i := range rs {
+		rs[i][0] = r.Chance(1, den)
+		if failDen > 0 {
+			rs[i][1] = r.Chance(1, failDen)
+		}
+	}
+	return rs
+}
+
+func genRouting(r *hx.Rand) rcase {
+	size, thr := r.Range(0, 8), r.Range(0, 8)
+	if r.Chance(1, 3) && size > 0 {
+		thr = r.Range(0, size-1)
+	}
+	rs := genRecs(r, 30)
+	if r.Bool() {
+		order := make([]int, len(rs))
+		for i := range order {
+			order[i] = i
+		}
+		if r.Chance(2, 3) { // shuffle: completion order differs from source order
+			for i := len(order) - 1; i > 0; i-- {
+				j := r.Intn(i + 1)
+				order[i], order[j] = order[j], order[i]
+			}
+		}
+		return rcase{Engine: "r1", Size: size, Thr: thr, Recs: rs, Order: order}
+	}
+	var bs [][][2]bool
+	for i := 0; i < len(rs); {
+		n := r.Range(1, 8)
+		if i+n > len(rs) {
+			n = len(rs) - i
+		}
+		bs = append(bs, rs[i:i+n])
+		i += n
+	}
+	return rcase{Engine: "r2", Size: size, Thr: thr, Batches: bs}
+}
+
 // ---------- generation ----------
 
 func genOps(r *hx.Rand, maxLen int) []bool {
@@ -251,7 +621,7 @@ func allVecs(n int) [][]bool {
 
 func main() {
 	o := hx.ParseFlags()
-	w, err := hx.NewWriter(o, "From Verif Require Import Base.CaseCheck Dlq.Window Dlq.Check.", "wcase")
+	w, err := hx.NewWriter(o, "From Verif Require Import Base.CaseCheck Dlq.Window Dlq.Routing Dlq.Check.", "wcase")
 	if err != nil {
 		fmt.Fprintln(os.Stderr, err)
 		os.Exit(2)
@@ -264,6 +634,17 @@ func main() {
 			os.Exit(2)
 		}
 		for _, m := range cs {
+			in, ok := m["input"].(map[string]any)
+			if !ok {
+				in = m
+			}
+			if e, _ := in["engine"].(string); e == "r1" || e == "r2" {
+				var rc rcase
+				if hx.Try(func() { rc = rcaseFromJSON(in) }) {
+					emitR(w, rc)
+				}
+				continue
+			}
 			var c wcase
 			if !hx.Try(func() { c = caseFromJSON(m) }) {
 				continue // not a well-formed case (e.g. a shrink candidate)
@@ -301,6 +682,10 @@ func main() {
 					thr = r.Range(0, size-1)
 				}
 			}
+			if i%2 == 1 {
+				emitR(w, genRouting(r))
+				continue
+			}
 			ops := genOps(r, 60)
 			if r.Bool() {
 				emit(w, wcase{Engine: "v1", Size: size, Thr: thr, Ops: ops})
@@ -314,6 +699,36 @@ func main() {
 		os.Exit(2)
 	}
 	fmt.Printf("cases=%d\n", w.Count())
+}
+
+func pairs(x any) [][2]bool {
+	var out [][2]bool
+	for _, e := range x.([]any) {
+		p := e.([]any)
+		out = append(out, [2]bool{p[0].(bool), p[1].(bool)})
+	}
+	return out
+}
+
+func rcaseFromJSON(in map[string]any) rcase {
+	c := rcase{Engine: in["engine"].(string), Size: int(in["size"].(float64)), Thr: int(in["thr"].(float64))}
+	if c.Size < 0 || c.Thr < 0 {
+		panic("negative")
+	}
+	if rs, ok := in["recs"].([]any); ok {
+		c.Recs = pairs(rs)
+	}
+	if bs, ok := in["batches"].([]any); ok {
+		for _, b := range bs {
+			c.Batches = append(c.Batches, pairs(b))
+		}
+	}
+	if os, ok := in["order"].([]any); ok {
+		for _, x := range os {
+			c.Order = append(c.Order, int(x.(float64)))
+		}
+	}
+	return c
 }
 
 func caseFromJSON(m map[string]any) wcase {
